@@ -526,7 +526,7 @@ class World(object):
         Set an initial step for simulator *sid* at time *time* (default=0).
         """
         sim = self.sims[sid]
-        sim.next_steps = [TieredTime(time) + sim.from_world_time]
+        sim.schedule_step(TieredTime(time) + sim.from_world_time)
 
     def get_data(
         self,
